@@ -99,7 +99,7 @@ func observeProgram(p *cprog, c *compiled) (map[*site]*cobs, bool) {
 	}
 	needExec := false
 	for _, s := range p.sites {
-		switch s.form {
+		switch baseForm(s.form) {
 		case "arraysize", "assert_eq", "assert_ne", "wgsize":
 		default:
 			needExec = true
@@ -118,7 +118,7 @@ func observeProgram(p *cprog, c *compiled) (map[*site]*cobs, bool) {
 		res[s] = o
 		t := tOf(s.c.Tree)
 		k := kindOf(t)
-		switch s.form {
+		switch baseForm(s.form) {
 		case "arraysize":
 			if n, ok := irArrayLen(c.m, s.name); ok {
 				o.Folded, o.V = true, []int32{int32(n)}
@@ -164,7 +164,7 @@ func observeProgram(p *cprog, c *compiled) (map[*site]*cobs, bool) {
 		if !o.Folded {
 			o.IRV = nil
 		}
-		if s.form == "modconst" || s.form == "named" {
+		if bf := baseForm(s.form); bf == "modconst" || bf == "named" {
 			if _, tk, ok := irConstByName(c.m, s.name); ok {
 				o.CKind = tk
 			}
